@@ -1,6 +1,7 @@
 """Shared helpers of the C17 / C18 checks: the generated tables as Python values (parsed from the
 generated Coq files, i.e. exactly what the proofs are about), running harness/probe_ren.c and the
 extracted model on the same `ren` requests, parsing the answers."""
+import subprocess
 import os, re, bisect
 import vlib
 
@@ -267,7 +268,24 @@ def run_ren(probe, model, reqs, chunks=16, timeout=900, heads=None):
     parts = [[reqs[i] for i in ix] for ix in idx]
 
     def one(part):
-        rc, out, err = vlib.run_lines(probe, part, timeout=timeout)
+        try:
+            rc, out, err = vlib.run_lines(probe, part, timeout=timeout)
+        except subprocess.TimeoutExpired:
+            # the probe hangs (e.g. dir_fix no longer advances because the matcher reports an empty match): find the request.
+            # Each request alone takes milliseconds; the first one without an answer within 60 s is re-run alone with 180 s
+            # before it is reported (only a reproduced timeout counts).
+            for r1 in part:
+                try:
+                    vlib.run_lines(probe, [r1], timeout=60)
+                    continue
+                except subprocess.TimeoutExpired:
+                    pass
+                try:
+                    vlib.run_lines(probe, [r1], timeout=180)
+                except subprocess.TimeoutExpired:
+                    return (None, None, None, 'probe_ren: HANG: this request alone gets no answer within 180 s (dir_context / dir_reorder '
+                            'do not return; the property promises an order array for every line)', [r1], None)
+            return (None, None, None, 'probe_ren: %d requests did not finish within %d s, no single one of them reproduces it' % (len(part), timeout), part, None)
         if rc != 0 or len(out) != len(part):
             # the probe answers in order: the request after the last answer is the one it died on
             culprit = [part[len(out)]] if len(out) < len(part) else part
